@@ -51,10 +51,14 @@ structure Ep where
   owner : Option Nat
   drain : Option Nat
   ticket : Option Nat
+  /-- in the dialer's bucket and the transport's bucket (`registerEndpoint`; `Close` unregisters) -/
+  registered : Bool
+  /-- the transport (`TransportLifecycle.TransportDone()` channel) the conn was dialled over -/
+  transport : Nat
   deriving DecidableEq, Repr
 
 def dummyEp : Ep :=
-  ⟨0, false, true, true, 0, 0, 0, 0, false, false, false, false, 0, 0, 0, [], true, none, none, none⟩
+  ⟨0, false, true, true, 0, 0, 0, 0, false, false, false, false, 0, 0, 0, [], true, none, none, none, false, 0⟩
 
 structure St where
   now : Nat
@@ -70,6 +74,8 @@ structure St where
   drn : Nat → Drain.St
   /-- ghost: transport dials performed -/
   dials : Nat
+  /-- per dialer: how many of its transports have ended (new conns ride on the next one) -/
+  tgen : Nat → Nat := fun _ => 0
   /-- the pool's tuning constants (janitor period, TTL-refresh throttle, negative-cache lifetime);
   the harness reads them off the real code, so retuning them is not a disagreement -/
   janitorIv : Nat := janitorInterval
@@ -132,7 +138,7 @@ def releaseDrain (s : St) (e : Nat) : St :=
 def closedRecord (E : Ep) : Ep :=
   { E with closed := true, expiresAt := 0, csClosed := true, tuples := [],
            connCloses := if E.failed then E.connCloses else E.connCloses + 1,
-           drain := none, ticket := none }
+           drain := none, ticket := none, registered := false }
 
 /-- `(*UdpEndpoint).Close()` -/
 def closeEp (s : St) (e : Nat) : St :=
@@ -228,17 +234,20 @@ def acquireTicket (s : St) (drain : Option Nat) : St × Option Nat :=
   | none => (s, none)
 
 def freshEp (k : Nat) (sym : Bool) (nat now : Nat) (owner drain : Option Nat) (d gen c : Nat)
-    (tk : Option Nat) : Ep :=
+    (tk : Option Nat) (tr : Nat) : Ep :=
   { key := k, failed := false, dead := false, closed := false, connCloses := 0,
     expiresAt := now + nat, lastRefresh := now, natTimeout := nat,
     hasSent := false, hasReply := false, wrote := false, symmetric := sym,
     dialer := d, gen := gen, ctr := c, tuples := [], csClosed := false,
-    owner := owner, drain := drain, ticket := tk }
+    owner := owner, drain := drain, ticket := tk, registered := true, transport := tr }
 
 /-- the state in which the new endpoint record is built: stale entry dropped, epoch counter of
 the dialer present, drain ticket taken -/
 def prepCreate (s : St) (k : Nat) (drain : Option Nat) (d : Nat) : St :=
   (acquireTicket (epochCounter (dropStale s k) d).1 drain).1
+
+/-- the transport new conns of dialer d ride on -/
+def transportId (s : St) (d : Nat) : Nat := d * 100000 + s.tgen d + 1
 
 /-- the endpoint object `createEndpointLocked` builds after a successful dial: the generation is the
 dialer's epoch *at that moment* (it may be stale by the time the object is published) -/
@@ -247,6 +256,7 @@ def createRecord (s : St) (k : Nat) (sym : Bool) (nat : Nat) (owner drain : Opti
     ((epochCounter (dropStale s k) d).1.ctrVal (epochCounter (dropStale s k) d).2)
     (epochCounter (dropStale s k) d).2
     (acquireTicket (epochCounter (dropStale s k) d).1 drain).2
+    (transportId s d)
 
 /-- the dial has happened (yield point `create.beforePublish`) -/
 def countDial (s : St) : St := { s with dials := s.dials + 1 }
@@ -318,7 +328,9 @@ def pooled (s : St) (nkeys : Nat) : List (Nat × Nat) :=
 
 /-- the janitor's verdict on one entry at tick time t -/
 def janitorOne (t : Nat) (s : St) (ke : Nat × Nat) : St :=
-  if (s.eps ke.2).isExpired t || (!genCurrent s (s.eps ke.2) && !(s.eps ke.2).survives)
+  -- (the walk holds the shard lock: the entry it looks at is the current one)
+  if s.pool ke.1 = some ke.2 ∧
+     ((s.eps ke.2).isExpired t || (!genCurrent s (s.eps ke.2) && !(s.eps ke.2).survives)) = true
   then closeEp (setPool s ke.1 none) ke.2 else s
 
 /-- one janitor pass at tick time `t` -/
@@ -340,10 +352,11 @@ def advance (nkeys : Nat) (fuel : Nat) (s : St) (dt : Nat) : St :=
 def bumpEpoch (s : St) (c : Nat) : St :=
   { s with ctrVal := fun i => if i = c then s.ctrVal c + 1 else s.ctrVal i }
 
-/-- the dialer's bucket: endpoints registered and not yet closed, that did not carry traffic -/
+/-- the dialer's bucket (registered endpoints; `Close` unregisters) restricted to those that did not
+carry traffic -/
 def victims (s : St) (d : Nat) : List Nat :=
   (List.range s.neps).filter fun e =>
-    !(s.eps e).failed && !(s.eps e).closed && (s.eps e).dialer == d && !(s.eps e).survives
+    !(s.eps e).failed && (s.eps e).registered && (s.eps e).dialer == d && !(s.eps e).survives
 
 /-- first half of `InvalidateDialerNetworkType(d)`: `counter.Add(1)` (yield point
 `invalidate.afterEpochBump`); from here on endpoints of the old generation that never carried
@@ -352,18 +365,38 @@ def invalBump (s : St) (d : Nat) : St := bumpEpoch (epochCounter s d).1 (epochCo
 
 /-- the dialer's bucket as `InvalidateDialerNetworkType` snapshots it: registered, not yet closed -/
 def bucket (s : St) (d : Nat) : List Nat :=
-  (List.range s.neps).filter fun e => !(s.eps e).failed && !(s.eps e).closed && (s.eps e).dialer == d
+  (List.range s.neps).filter fun e => !(s.eps e).failed && (s.eps e).registered && (s.eps e).dialer == d
 
 /-- `InvalidateDialerNetworkType(d)` as one step: bump, then retire (mark dead; leave the pool;
 close — `retire = closeEp ∘ selfRemove ∘ markDead`) every bucket member that carried no traffic -/
 def invalidate (s : St) (d : Nat) : St × Nat :=
   ((victims (invalBump s d) d).foldl retire (invalBump s d), (victims (invalBump s d) d).length)
 
-def resetOne (s : St) (ke : Nat × Nat) : St := closeEp (setPool s ke.1 none) ke.2
+/-- the pool's reverse indexes are emptied (`Reset()`): nobody is registered any more -/
+def clearIndex (s : St) : St := { s with eps := fun e => { (s.eps e) with registered := false } }
+
+/-- the endpoints riding on dialer d's current transport (`udpEndpointTransportBucket`) -/
+def tvictims (s : St) (d : Nat) : List Nat :=
+  (List.range s.neps).filter fun e => (s.eps e).registered && (s.eps e).transport == transportId s d
+
+/-- the transport ends (`watchTransportLifecycle`): every endpoint on it is retired, traffic or not -/
+def transportDone (s : St) (d : Nat) : St :=
+  { ((tvictims s d).foldl retire s) with tgen := fun i => if i = d then s.tgen d + 1 else s.tgen i }
+
+/-- `registerEndpoint(ue)` (after the table write and the yield point `create.afterPublish`): the
+endpoint enters its dialer's bucket and its transport's bucket — even when somebody has closed it in
+between (it then stays in the dialer's bucket).  If the transport has ended meanwhile the watcher of
+the new bucket fires at once and retires the endpoint. -/
+def register (s : St) (e : Nat) : St :=
+  if (s.eps e).transport = transportId s (s.eps e).dialer then setEp s e { (s.eps e) with registered := true }
+  else retire (setEp s e { (s.eps e) with registered := true }) e
+
+def resetOne (s : St) (ke : Nat × Nat) : St :=
+  if s.pool ke.1 = some ke.2 then closeEp (setPool s ke.1 none) ke.2 else s
 
 /-- `Reset()` -/
 def reset (nkeys : Nat) (s : St) : St :=
-  { ((pooled s nkeys).foldl resetOne s) with curCtr := fun _ => none }
+  { clearIndex ((pooled s nkeys).foldl resetOne s) with curCtr := fun _ => none }
 
 def newTupleKeys (E : Ep) (j : Nat) : List Nat := [2 * j, 2 * j + 1].filter fun k => !E.tuples.contains k
 
@@ -400,8 +433,10 @@ inductive Op
   | selfRemove (e : Nat)
   | prepCreate (k : Nat) (drain : Option Nat) (d : Nat)
   /-- publish an endpoint object built earlier (its generation may be stale by now); only open,
-  never-closed objects are ever published -/
+  never-closed objects that track no tuple yet are ever published -/
   | publish (E : Ep)
+  | register (e : Nat)
+  | transportDone (d : Nat)
   deriving DecidableEq, Repr
 
 /-- number of pool keys the janitor / Reset enumerate (the model's key universe) -/
@@ -422,7 +457,9 @@ def step (s : St) : Op → St
   | .markDead e => markDead s e
   | .selfRemove e => selfRemove s e
   | .prepCreate k drain d => countDial (prepCreate s k drain d)
-  | .publish E => if E.closed = false ∧ E.connCloses = 0 then publishEp s E else s
+  | .publish E => if E.closed = false ∧ E.connCloses = 0 ∧ E.tuples = [] then publishEp s E else s
+  | .register e => register s e
+  | .transportDone d => transportDone s d
 
 def run : St → List Op → St
   | s, [] => s
